@@ -135,6 +135,29 @@ pub mod repr {
         pub b: u16,
     }
 }
+/// same fields and size, different argument of repr(align(N))
+pub mod align8 {
+    use epserde::prelude::*;
+    #[derive(Epserde, Debug, Clone, Copy, PartialEq, Eq)]
+    #[repr(C)]
+    #[repr(align(8))]
+    #[zero_copy]
+    pub struct W {
+        pub lo: u64,
+        pub hi: u64,
+    }
+}
+pub mod align16 {
+    use epserde::prelude::*;
+    #[derive(Epserde, Debug, Clone, Copy, PartialEq, Eq)]
+    #[repr(C)]
+    #[repr(align(16))]
+    #[zero_copy]
+    pub struct W {
+        pub lo: u64,
+        pub hi: u64,
+    }
+}
 /// type name changed
 pub mod named {
     use epserde::prelude::*;
